@@ -17,8 +17,8 @@ TABLE = [
     ('C14', r'^glm_(nextFloat|prevFloat|floatDistance|equal_ulps|notEqual_ulps|equal_eps)_f32_s$|^glm_next_float_f32_s$|^glm_prev_float_f32_s$'),
     ('C01', r'^glm_(round|roundEven|trunc|fract|floor|ceil|sign|abs|mod|min|max|clamp|mix|step|smoothstep|isnan|isinf|sqrt|inversesqrt|pow|exp2|log2|sin|atan|fmin|fmax|fclamp)_f32_(v|vv|vs|vvv|vss|vvs|sv|ssv)_v(1|4)$'
             r'|^glm_op_(add|mul|div|mod|shl|shr|and)_(f32|i32|u32)_(vv|vs)_v4$|^glm_(lessThan|equal|notEqual)_(f32|i32)_v4$|^glm_(any|all|not)_v4$'),
-    ('C02', r'^glm_(mul_m4x4_m4x4|mul_m3x3_v|mul_v_m4x4|transpose_m3x4|mul_m2x3_m3x2|outerProduct_3x2)_f32$|^glm_conv_m4x4_from_m3x3$|^glm_mul_m3x3_m3x3_u32$'),
-    ('C17', r'^glm_ctor_(vec4_f32_from_2_1_1_f32|vec3_i32_from_1_2_f32_i32_f64_u32|mat3x3_diag|quat_s_v)$'),
+    ('C02', r'^glm_(mul_m4x4_m4x4|mul_m3x3_v|mul_v_m4x4|transpose_m3x4|mul_m2x3_m3x2|outerProduct_3x2)_f32$|^glm_conv_m\dx\d_from_m\dx\d$|^glm_mul_m3x3_m3x3_u32$'),
+    ('C17', r'^glm_ctor_(vec4_f32_from_2_1_1_f32|vec3_i32_from_1_2_f32_i32_f64_u32|mat\dx\d_(diag|scalars|columns)|quat_s_v)$'),
 ]
 d = P.driver('c15', ['<glm/glm.hpp>'])
 incl = ['<glm/glm.hpp>']
@@ -54,6 +54,9 @@ CONFIGS = {
     'pure': ['GLM_FORCE_PURE'], 'silent_warnings': ['GLM_FORCE_SILENT_WARNINGS'],
     'cxx98_xyzw_ctor': ['GLM_FORCE_CXX98', 'GLM_FORCE_XYZW_ONLY', 'GLM_FORCE_CTOR_INIT'],
     'inline_sizet_explicit': ['GLM_FORCE_INLINE', 'GLM_FORCE_SIZE_T_LENGTH', 'GLM_FORCE_EXPLICIT_CTOR'],
+    # with clang, GLM_HAS_INITIALIZER_LISTS / GLM_HAS_CONSTEXPR / ... come from __has_feature even under GLM_FORCE_CXX98, so the pre-C++11
+    # constructor bodies (the ones g++ compiles under GLM_FORCE_CXX98) are only reached once the compiler is 'unknown' as well
+    'cxx98_unknown': ['GLM_FORCE_CXX98', 'GLM_FORCE_COMPILER_UNKNOWN'],
 }
 QUICK_CFG = ('cxx98', 'inline', 'size_t_length', 'xyzw_only', 'pure')
 base = P.build(d, 'flat', tag='cfg_default')
@@ -76,6 +79,20 @@ def beq(t, a, b):
     if t == 'double':
         return '(ll2c_f64_bits(%s) == ll2c_f64_bits(%s) || (%s != %s && %s != %s)%s)' % (a, b, a, a, b, b, z)
     return '%s == %s' % (a, b)
+
+
+# the 81 matrix conversions and 27 matrix constructors have two hand-written bodies each (initializer list / assignments, selected by
+# GLM_HAS_INITIALIZER_LISTS): every one is compared under GLM_FORCE_CXX98 + GLM_FORCE_COMPILER_UNKNOWN on every change, under the other configurations in the thorough tier
+STRUCT_RX = re.compile(r'^glm_conv_m|^glm_ctor_mat')
+STRUCT_QUICK_ALL = ('glm_conv_m4x4_from_m3x3', 'glm_ctor_mat3x3_diag')
+
+
+def tier_of(cfg, n):
+    if re.search(r'mul_m4x4_m4x4|mul_m3x3_m3x3_u32', n):
+        return 'thorough'
+    if STRUCT_RX.match(n) and n not in STRUCT_QUICK_ALL:
+        return 'quick' if cfg == 'cxx98_unknown' else 'thorough'
+    return 'quick' if (cfg in QUICK_CFG or cfg == 'O0') else 'thorough'
 
 
 src_contracts = {}
@@ -115,7 +132,7 @@ for cfg, b in builds.items():
                 req.append(('components_not_nan', ' && '.join('%s == %s' % (x, x) for x in fl)))
         P.contract(n, '%s shim %s under %s vs default configuration' % (modname, n, ' '.join(CONFIGS.get(cfg, ['-' + cfg]))),
                    requires=req, ensures=ens, build=b, rel=('cfg_default', [n]), unwind=max(sc.unwind, 12) if (sc is not None and sc.unwind < 60) else 12,
-                   uf_float=('fmul', 'fdiv', 'fadd', 'fsub', 'sqrt', 'imul', 'iudiv', 'iurem', 'isdiv', 'isrem'), timeout=120, tier='quick' if (cfg in QUICK_CFG or cfg == 'O0') and not re.search(r'mul_m4x4_m4x4|mul_m3x3_m3x3_u32', n) else 'thorough',
+                   uf_float=('fmul', 'fdiv', 'fadd', 'fsub', 'sqrt', 'imul', 'iudiv', 'iurem', 'isdiv', 'isrem'), timeout=120, tier=tier_of(cfg, n),
                    backends=('sat',))
 
 P.level_text = ('for every (configuration, operation) of the generated table the result computed by the code clang extracts under that '
